@@ -275,7 +275,11 @@ fn main() {
 pub fn compactkill_stream(a: &snel_harness::out::Args) {
     use serde_json::json;
     use snel_harness::sys::Session;
-    const POINTS: [&str; 9] = [
+    const POINTS: [&str; 11] = [
+        // inside the write of the output directory (`ZoneWriter::write_all` of the first event
+        // type): the `.zones` file exists, the column / index files do not (yet)
+        "zonewriter.meta_written",
+        "zonewriter.cols_written",
         "compact.output_written",
         "handover.before_index_save",
         // inside SegmentIndex::save: temporary file complete / renamed over segments.idx
@@ -383,6 +387,22 @@ pub fn compactkill_stream(a: &snel_harness::out::Args) {
             if let Some(fp2) = dirs_end.get(name) {
                 if fp2 != fp && fail.is_none() && dirs_only {
                     fail = Some(("compaction-reuses-unpublished-output-id".into(), format!("directory {name} was rewritten by the round after a kill at {point}")));
+                }
+            }
+        }
+        // whatever the recovery round did: the index names only complete directories
+        // (takes precedence over a failure of a known class)
+        if dirs_only && fail.as_ref().map(|f| f.0 != "-").unwrap_or(true) {
+            match decode_index_strict(&s.shard_data_dir(0).join("segments.idx")) {
+                Err(e) => fail = Some(("-".into(), format!("after the round that follows a kill at {point} segments.idx is not a complete index: {e}"))),
+                Ok(ids) => {
+                    for id in ids {
+                        let label = format!("{id:05}");
+                        if let Some(missing) = incomplete_dir(&s.shard_data_dir(0).join(&label)) {
+                            fail = Some(("-".into(), format!("after the round that follows a kill at {point} segments.idx names {label}, whose files are incomplete: {missing}")));
+                            break;
+                        }
+                    }
                 }
             }
         }
@@ -878,6 +898,32 @@ fn decode_index_strict(path: &std::path::Path) -> Result<Vec<u32>, String> {
         return Err(format!("{} trailing bytes after the last entry", b.len() - pos));
     }
     Ok(ids)
+}
+
+/// A segment directory is complete when every event type that has a `<uid>.zones` file there also
+/// has its zone index and the column + offset files of the fixed fields and of the payload field
+/// `k` (the schema of these streams). Returns what is missing.
+fn incomplete_dir(dir: &std::path::Path) -> Option<String> {
+    let names: Vec<String> = std::fs::read_dir(dir).ok()?.flatten().map(|e| e.file_name().to_string_lossy().to_string()).collect();
+    let uids: Vec<String> = names.iter().filter_map(|n| n.strip_suffix(".zones").map(|u| u.to_string())).collect();
+    if uids.is_empty() {
+        return Some("no <uid>.zones file".into());
+    }
+    let mut missing = vec![];
+    for u in uids {
+        let mut need = vec![format!("{u}.idx")];
+        for f in ["context_id", "event_type", "timestamp", "event_id", "k"] {
+            need.push(format!("{u}_{f}.col"));
+            need.push(format!("{u}_{f}.zfc"));
+        }
+        for n in need {
+            let p = dir.join(&n);
+            if !p.is_file() || std::fs::metadata(&p).map(|m| m.len() == 0).unwrap_or(true) {
+                missing.push(n);
+            }
+        }
+    }
+    if missing.is_empty() { None } else { Some(missing.join(", ")) }
 }
 
 fn list_dirs(shard: &std::path::Path) -> BTreeMap<String, BTreeMap<String, (u64, u64)>> {
